@@ -117,6 +117,30 @@ def run_arch(ck, arch, prop):
                     sweeps.append((f, k, v, later, src, ORG))
     if not thorough and len(sweeps) > 60000:
         sweeps = rng.sample(sweeps, 60000)
+    # the operand written as an expression instead of a number: a sum, and (where parentheses do not already mean
+    # something else for this CPU) a parenthesised sum / number.  An accepted spelling must encode the value of the
+    # expression: either as the form it was derived from or, if the parentheses select another documented form
+    # (`ld a, (3)`), as that one.
+    written_alt = {}
+    for f in census_forms:
+        ms = list(asmk.NUMRE.finditer(f))
+        mn = f.split()[0]
+        if not ms or mn in REL_MN:
+            continue
+        m = ms[-1]
+        inside_paren = "(" in f[:m.start()] and ")" in f[m.end():]
+        for v in (3, 18, 200, 255, 300, 4660):
+            plain = f[:m.start()] + str(v) + f[m.end():]
+            texts = ["%d+%d" % (v - 1, 1), "%d-%d" % (v + 2, 2)]
+            if arch != "6502" and not inside_paren:
+                texts += ["(%d+%d)" % (v - 1, 1), "(%d)" % v, "(+%d)" % v]
+            for tx in texts:
+                src = "@org %d\n %s\n" % (ORG, f[:m.start()] + tx + f[m.end():])
+                alts = [plain]
+                if tx.startswith("("):
+                    alts.append(f[:m.start()] + "(%d)" % v + f[m.end():])
+                written_alt[src] = alts
+                sweeps.append((f, len(ms) - 1, v, None, src, ORG))
     # relative branches at other origins, up to the very top of memory (the base of the distance is the address after the
     # instruction, which reaches $10000 for a branch at $FFFE)
     for f in census_forms:
@@ -136,6 +160,14 @@ def run_arch(ck, arch, prop):
                     else:
                         src = "@org %d\n %s\n" % (org, f[:m.start()] + str(v) + f[m.end():])
                     sweeps.append((f, len(ms) - 1, v, later, src, org))
+            # targets a whole address space away: the distance is far outside the field, also when it would fit after
+            # being cut to 16 bits (a known value and a value only the linker sees)
+            for d in (-128, -18, 0, 17, 127):
+                for wrap in (-65536, 65536):
+                    v = org + 2 + d + wrap
+                    lit = str(v) if v >= 0 else "0%d" % v
+                    sweeps.append((f, len(ms) - 1, v, False, "@org %d\n %s\n" % (org, f[:m.start()] + lit + f[m.end():]), org))
+                    sweeps.append((f, len(ms) - 1, v, True, "@org %d\n %s\n@defn lat1, %s\n" % (org, f[:m.start()] + "lat1" + f[m.end():], lit), org))
     # other origins
     for f in rng.sample(census_forms, min(len(census_forms), 300)):
         for org in (0, 0xFFF0 - 16, 0x8000):
@@ -221,6 +253,19 @@ def run_arch(ck, arch, prop):
             written = form.replace("lat1", str(v)).replace("0-", "-")
             ck.count("sweep:%s" % r.kind)
             ck.nontriv(src)
+            if src in written_alt:
+                if r.ok and not r.crashed:
+                    whys = [check_decode(i, form, org, w) for w in written_alt[src]]
+                    cls = next((c for c in (classify_known(w, y) for w, y in zip(written_alt[src], whys) if y) if c), None) if all(whys) else None
+                    if cls:
+                        ck.known_hit(cls, "`%s`: %s" % (form, whys[0]))
+                    elif all(whys):
+                        ck.violation("%s: `%s` at $%x is accepted but %s" % (arch, form, org, whys[0].replace("written `", "meaning `")),
+                                     {"mode": "asm", "arch": arch, "source": t, "harness_case": icases[i],
+                                      "expected": "a diagnostic, or bytes that decode to `%s`" % "` / `".join(written_alt[src])})
+                    continue
+                if not r.crashed:
+                    continue
         if r.crashed:
             ck.violation("%s: `%s` crashed the assembler (%s)" % (arch, form, r.raw[:120]),
                          {"mode": "asm", "arch": arch, "source": t, "harness_case": icases[i], "expected": "OK or DIAG"})
@@ -243,6 +288,8 @@ def run_arch(ck, arch, prop):
     for j, (f, k, v, later, src, sorg) in enumerate(sweeps):
         groups.setdefault((f, k, later, sorg), []).append((v, impl[nprog + j], j))
     for (f, k, later, sorg), items in groups.items():
+        if later is None:
+            continue
         mn = f.split()[0]
         acc = [v for v, r, _ in items if r.ok]
         if not acc and mn not in REL_MN:
